@@ -81,6 +81,9 @@ func nodeApp(o repOpts, db dbm.DB) *app.Haqq {
 	if o.MaxTxGasWanted != 0 {
 		ao[srvflags.EVMMaxTxGasWanted] = o.MaxTxGasWanted
 	}
+	if o.EVMTracer != "" {
+		ao[srvflags.EVMTracer] = o.EVMTracer
+	}
 	bopts := []func(*baseapp.BaseApp){baseapp.SetChainID(chainID)}
 	if o.MinGasPrices != "" {
 		bopts = append(bopts, baseapp.SetMinGasPrices(o.MinGasPrices))
